@@ -35,6 +35,11 @@ var c12Keys = []string{"a", "b", "c"}
 
 func (s c12Spec) newState() eng.SeqState {
 	w := model.NewWorld(model.Config{Cols: []model.ColDef{{Name: "key", Kind: "key"}, {Name: "v", Kind: "int"}}})
+	if s.small == "two-blocks" {
+		one := []model.Write{{Col: "v", V: model.Val{N: 1}}}
+		k := func(x string) []model.Write { return append([]model.Write{{Col: "key", V: model.Val{S: x}}}, one...) }
+		w.SeedReplay(map[uint32][]model.Write{3: k("a"), 16384: k("b"), 16384 + 9: k("c")})
+	}
 	return &worldState{w: w, ops: s.ops, check: func(w *model.World) []eng.Violation {
 		return w.Check(model.Obs{Values: true, Keys: append([]string{""}, c12Keys...)})
 	}}
@@ -77,6 +82,14 @@ func c12Small(w *model.World, which string) (out []opx) {
 	keys := []string{"a", "b", "c"}
 	if which == "empty-key" {
 		keys = []string{"", "a"}
+	}
+	if which == "two-blocks" {
+		// keys b and c live in the second block; new rows go to the first one
+		out = append(out, txnOp(w, []model.Act{{Op: "upsertkey", Key: "b", W: set}}, false))
+		out = append(out, txnOp(w, []model.Act{{Op: "rekey", Key: "c", NewKey: "a"}}, false))
+		if rows := w.M.RowsOfKey("c"); len(rows) == 1 {
+			out = append(out, txnOp(w, []model.Act{{Op: "del", Off: rows[0]}}, false))
+		}
 	}
 	for _, k := range keys {
 		out = append(out, txnOp(w, []model.Act{{Op: "insertkey", Key: k, W: set}}, false))
@@ -145,9 +158,9 @@ func (s c12Spec) ops(w *model.World) (out []opx) {
 }
 
 func c12SeqUnits(tier string) (units []eng.Unit) {
-	specs := []c12Spec{{3, false, ""}, {2, true, ""}, {6, false, "insert-delete-rekey"}, {6, false, "empty-key"}}
+	specs := []c12Spec{{3, false, ""}, {2, true, ""}, {6, false, "insert-delete-rekey"}, {6, false, "empty-key"}, {5, false, "two-blocks"}}
 	if tier != "quick" {
-		specs = []c12Spec{{4, false, ""}, {3, true, ""}, {8, false, "insert-delete-rekey"}, {8, false, "empty-key"}}
+		specs = []c12Spec{{4, false, ""}, {3, true, ""}, {8, false, "insert-delete-rekey"}, {8, false, "empty-key"}, {7, false, "two-blocks"}}
 	}
 	for _, s := range specs {
 		s := s
